@@ -1519,6 +1519,15 @@ func (fr *Frame) returnAsserts(x *ssa.Return) {
 			continue
 		}
 		env := fr.curEnv()
+		rt := fr.fn.Signature.Results()
+		for i, r := range x.Results {
+			if _, isTup := r.Type().(*types.Tuple); isTup {
+				continue
+			}
+			if v, ok := fr.tryVal(r); ok && i < rt.Len() {
+				env.result = append(env.result, Binding{v, rt.At(i).Type()})
+			}
+		}
 		t, err := env.evalBool(cs.E)
 		if err != nil {
 			panic(err)
